@@ -1079,6 +1079,17 @@ private:
       std::unique_lock<std::shared_mutex> wl(_sessionRwMutex);
       _sessions.clear();
     }
+    // Drop the fd -> Session tags of the sessions closed above (closeNow erases its own
+    // tag, this loop did not). Left behind, they survive into the next start(): a new
+    // socket that reuses the fd number fails to emplace its tag, and its events are
+    // dispatched to the freed Session (use-after-free). Listener tags are erased below.
+    for (auto it = _fdTags.begin(); it != _fdTags.end();)
+    {
+      if (!it->second->isListener)
+        it = _fdTags.erase(it);
+      else
+        ++it;
+    }
 
     // Close listeners
     std::vector<Listener *> listenersToClose;
